@@ -210,6 +210,8 @@ type (
 		Then  *Block
 		Elifs []Elif
 		Else  *Block // nil: if-only (unit)
+		// OneLine: an else-less if with a one-expression body that every layout writes on one line
+		OneLine bool
 	}
 	MatchU struct {
 		Target  Expr
